@@ -9,10 +9,10 @@ from .. import common, tlc
 CLAUSE_PROPS = {
     "StepSeqGapFree": {"C03"},
     "EpisodeCounter": {"C05"},
-    "ScheduledTime": {"C04"},
-    "BlockingArrivalMax": {"C04"},
-    "PrevEnd": {"C04"},
-    "SchedulingDrift": {"C04"},
+    "ScheduledTime": {"C04", "C13"},   # header fields that exist only in the record: "what a record contains is what that step used"
+    "BlockingArrivalMax": {"C04", "C13"},   # header fields that exist only in the record: "what a record contains is what that step used"
+    "PrevEnd": {"C04", "C13"},   # header fields that exist only in the record: "what a record contains is what that step used"
+    "SchedulingDrift": {"C04", "C13"},   # header fields that exist only in the record: "what a record contains is what that step used"
     "StartTime": {"C04", "C03"},
     "CompDelaySupport": {"C04"},
     "EndTime": {"C04"},
